@@ -139,6 +139,14 @@ Proof.
   unfold kouri_exact_line_search. unfold_num. cbv zeta. apply Rmult_le_pos; [lra|]. left. apply Rinv_0_lt_compat. lra.
 Qed.
 
+(* without d.s <= 0 the monotone rule yields a negative step length (finding F12): d.s = 1, sBs = 1 gives alpha = -1 *)
+Lemma monotone_alpha_negative : exists ds sBs q qMax, 0 < sBs /\ q <= qMax /\ @spg_alpha R NumR false ds sBs q qMax < 0.
+Proof.
+  exists 1, 1, 0, 0. split; [lra|]. split; [lra|].
+  unfold spg_alpha, kouri_exact_line_search. unfold_num. q2r. cbv zeta. unfold Rltb.
+  destruct (Rlt_dec 0 1); [|lra]. destruct (Rlt_dec (- (1) / 1) 1); lra.
+Qed.
+
 (* ------------------------------------------------------------------ the outer loop, arbitrary oracles *)
 Section BCproofs.
   Variable value : rvec -> R.
